@@ -89,6 +89,8 @@ def build(wf: Workflow, blocks: list[dict], chaos: Chaos | None, *, workdir: str
             P[b["out"]] = out
         elif op == "loop":
             P[b["out"]] = _build_loop(wf, name, P[b["src"]], b["m"], b["method"], chaos)
+        elif op == "cross":
+            P[b["out"]] = _build_cross(wf, name, P[b["srcs"][0]], P[b["srcs"][1]], b["mode"], chaos)
         elif op == "exec":
             plan = {f"{name}/{tag}": k for tag, k in (fail_plan or {}).get(str(n), {}).items()}
             out, ex, sched = exec_pipeline(
@@ -135,6 +137,52 @@ def _build_loop(wf: Workflow, name: str, in_port: Port, m: int, method: str, cha
     back.add_input_port("x", p_body_out)
     back.add_output_port("x", p_fwd)
     return p_ext
+
+
+def _build_cross(wf: Workflow, name: str, pa: Port, pb: Port, mode: str, chaos) -> Port:
+    """scatter(a) x scatter(b) -> CartesianProductCombinator -> combine -> gather(s); sizes as the CWL
+    translator builds them (flat: CartesianProductSizeTransformer + GatherStep(depth=2); nested: clone
+    size transformers + chained gathers)."""
+    from streamflow.cwl.transformer import CartesianProductSizeTransformer
+    from streamflow.cwl.translator import _create_nested_size_tag
+    from streamflow.workflow.combinator import CartesianProductCombinator
+
+    scat = {}
+    els = {}
+    for k, p in (("a", pa), ("b", pb)):
+        sc = wf.create_step(ScatterStep, name=f"{name}/{k}-scatter")
+        sc.add_input_port(k, p)
+        els[k] = wf.create_port()
+        sc.add_output_port(k, els[k])
+        scat[k] = sc
+    comb = CartesianProductCombinator(workflow=wf, name=name + "-scatter-combinator")
+    cstep = wf.create_step(CombinatorStep, name=name + "-scatter-combinator", combinator=comb)
+    mids = {}
+    for k in ("a", "b"):
+        comb.add_item(k)
+        cstep.add_input_port(k, els[k])
+        mids[k] = wf.create_port()
+        cstep.add_output_port(k, mids[k])
+    pz = _fn(wf, name, lambda d: {"out": progs.zip_apply([d["a"], d["b"]])}, chaos, mids)
+    if mode == "flat":
+        st_ = wf.create_step(CartesianProductSizeTransformer, name=name + "-scatter-size-transformer")
+        for k in ("a", "b"):
+            st_.add_input_port(k, scat[k].get_size_port())
+        size_port = wf.create_port()
+        st_.add_output_port("a-b", size_port)
+        g = wf.create_step(GatherStep, name=name + "-gather", size_port=size_port, depth=2)
+        g.add_input_port("out", pz)
+        out = wf.create_port()
+        g.add_output_port("out", out)
+        return out
+    sizes = _create_nested_size_tag({"b": scat["b"].get_size_port()}, {"a": scat["a"].get_size_port()}, name, wf)
+    cur = pz
+    for k, size_port in zip(("a", "b"), sizes, strict=True):
+        g = wf.create_step(GatherStep, name=f"{name}-gather-{k}", size_port=size_port)
+        g.add_input_port("out", cur)
+        cur = wf.create_port()
+        g.add_output_port("out", cur)
+    return cur
 
 
 async def inject_sources(ctx, built: Built) -> None:
